@@ -340,13 +340,16 @@ StftRule(s, n) ==
                              \o [j \in 1..D |-> BSh(ich, <<j, bo[2], bo[3]>>)]),
                  [j \in 1..D |-> Dep(<<j, bo[2], bo[3]>>)])],
           [s.meta EXCEPT !.per = s.meta.per * n])
-\* ---- contrib.istft(nperseg = n): ifft over groups of n channels (the frequency axis must be one chunk)
+\* ---- contrib.istft(nperseg = n): ifft over groups of n channels.  The reshape splits the
+\*      frequency axis into (groups, n); the n-axis is one chunk exactly when every frequency
+\*      chunk holds whole groups, otherwise fft_wrap refuses.
 IstftRule(s, n) ==
   LET ich == ChOf(s)
-      och == <<[j \in 1..Len(ich[1]) |-> ich[1][j] * n], <<s.sh[2] \div n>>, ich[3]>>
-  IN Rule(~FftNeedsOneChunk \/ Len(ich[2]) = 1, <<s.sh[1] * n, s.sh[2] \div n, s.sh[3]>>, och,
+      och == <<[j \in 1..Len(ich[1]) |-> ich[1][j] * n], [j \in 1..Len(ich[2]) |-> ich[2][j] \div n], ich[3]>>
+  IN Rule(~FftNeedsOneChunk \/ \A j \in 1..Len(ich[2]) : (ich[2][j] % n) = 0,
+          <<s.sh[1] * n, s.sh[2] \div n, s.sh[3]>>, och,
           Rec("istft", Par("istft", <<n>>, <<>>), <<>>), <<>>,
-          [bo \in BlockSet(och) |-> Rec("istft", Par("istft", <<n>>, <<>>), <<Dep(<<bo[1], 1, bo[3]>>)>>)],
+          [bo \in BlockSet(och) |-> Rec("istft", Par("istft", <<n>>, <<>>), <<Dep(bo)>>)],
           [s.meta EXCEPT !.per = s.meta.per \div n])
 
 (***************************************************************************)
@@ -685,6 +688,10 @@ ContainerOnly ==
        /\ ContainerBackStep(LastKind, Summary(sig'))
        /\ (LastKind \in {"container", "run"} => sig'.val = sig.val)
        /\ (LastKind = "run" => RunStep(hist'[Len(hist')].op, Summary(sig), Summary(sig')))]_vars
+\* persist: the blocks of the result are data, nothing of the old graph is needed any more
+PersistHolds ==
+  [][(hist' # hist /\ LastKind = "run" /\ hist'[Len(hist')].op = "persist" /\ sig.back = "dask") =>
+       \A t \in Anc(graph', BlockTasks(sig')) : graph'[t].kind = "src" /\ graph'[t].deps = <<>>]_vars
 RefusalsLegit == \A j \in 1..Len(hist) : RefusalStep(hist[j].op, hist[j].a, hist[j].refused, hist[j].pre)
 
 \* the blocks of a Dask-backed signal denote the value NumPy computes; a computed signal holds it
